@@ -65,6 +65,33 @@ def gen_cases(rnd, quick):
                     for j in ms[: k + 1]:
                         ops.append("g %d 0" % j)
                 mk("M", W, R, nb, start, length, ops, {"rows": rows, "ms": ms})
+    # leftovers of an earlier session: the device is not all-zero before `new` but blank, blank except the first / last bytes of the
+    # range, or patterned; the blocks reach the end of the range (the last block overlaps the dirty tail)
+    for W in WS:
+        for kind in ("D", "P"):
+            for init_kind in ("b", "t", "t", "h", "a"):
+                R = rnd.choice([r for r in WS if r <= W])
+                L = rnd.choice([l for l in (W, 2 * W, 3 * W, W + 1, 2 * W + 3, 32, 33, 48, 64) if l >= W and l <= 64])
+                stride = L if kind == "D" else -(-L // W) * W
+                length = rnd.choice([256, 512])
+                start = rnd.choice([0, 256, 1024])
+                cnt = length // stride
+                if kind == "D":
+                    cnt = (length - W) // stride if (length - W) // stride >= 1 else cnt      # the data adapter's padded last word stays inside
+                if cnt < 1: continue
+                slack = length - cnt * stride
+                k = rnd.randint(slack + 1, max(slack + 1, 32)) if init_kind == "t" else rnd.randint(1, 32)
+                init = init_kind + (str(k) if init_kind in "th" else "")
+                idx = sorted(set([0, cnt - 1, rnd.randrange(cnt)]))
+                order = tuple(rnd.sample(idx, len(idx)))
+                blocks = {i: bytes(rnd.getrandbits(8) for _ in range(L)) for i in idx}
+                ops = []
+                for kk, i in enumerate(order):
+                    ops.append("s %d %s" % (i, blocks[i].hex()))
+                    for j in order[: kk + 1]:
+                        ops.append("g %d %d" % (j, L))
+                cases.append(("%s %d %d %d %d %d %s|%s" % (kind, W, R, 8, start, length, init, ";".join(ops)),
+                              dict(L=L, blocks=blocks, order=order, kind=kind, W=W, R=R, nb=8, start=start, len=length, init=init)))
     # range starts that are not erase-aligned are rejected by the device before any store
     mk("D", 4, 1, 8, 100, 256, ["s 0 " + "ab" * 8], {"L": 8, "blocks": {}, "order": ()})
     return cases
@@ -109,9 +136,9 @@ def oracle(case, meta, toks):
                         if d != "-":
                             b = bytes.fromhex(d); a = int(a, 16)
                             for k, x in enumerate(b): img[a + k] &= x
-            want = b"".join(blocks[i] for i in sorted(blocks))
-            if bytes(img[start:start + len(want)]) != want:
-                msgs.append("data blocks are not laid out contiguously from the range start")
+            L_ = meta["L"]
+            if any(bytes(img[start + i * L_:start + (i + 1) * L_]) != blocks[i] for i in blocks):
+                msgs.append("data blocks are not laid out contiguously from the range start (block i at offset i x length)")
     else:
         rows, nb = meta["rows"], meta["nb"]
         nr = int(heads[1]) if heads[1].isdigit() else -1
@@ -164,7 +191,7 @@ def run(chk):
     except core.BuildError as e:
         chk.broken.append(("correspondence", "adapters[model build]", {"detail": str(e)[-1500:]}))
     return chk.finish(level="proof",
-        rule="adapters stream: write sizes {1,2,4,8,16,32} x read sizes dividing them x block lengths (quick: boundary lengths around the write size and 1..64 samples; thorough: every 1..64) x 2..6 indices in exhaustive (<= 3 indices) or random store orders, "
+        rule="adapters stream (the device is all-zero before `new`; plus cases where it is blank, blank except the first / last 1..32 bytes of the range, or patterned, with blocks reaching the end of the range): write sizes {1,2,4,8,16,32} x read sizes dividing them x block lengths (quick: boundary lengths around the write size and 1..64 samples; thorough: every 1..64) x 2..6 indices in exhaustive (<= 3 indices) or random store orders, "
              "every stored index re-read after every store; range starts 0 / 256 / 512 / 1024 (and one unaligned start); matrix: bit-array widths 40 / 64 / 256, rows incl. first / last / byte boundaries in random order, num_rows; "
              "non-trivial = every case; distinct by case text",
         trusted=core.TRUSTED_COMMON + ["C16: the simulated word NOR (alignment = offset and length multiples of WRITE_SIZE / READ_SIZE, AND-program, starts all-zero so that a missing erase shows)"])
